@@ -30,6 +30,9 @@ import GlmVerif.Props.C09.T_scaleBias
 import GlmVerif.Props.C09.T_scaleBiasM
 import GlmVerif.Props.C09.T_axisAngleMatrix
 import GlmVerif.Props.C09.T_extractMatrixRotation
+import GlmVerif.Props.C09.T_projrefl
+import GlmVerif.Props.C09.T_vslerp
+import GlmVerif.Props.C09.T_orientation
 /-! every family table of C09 holds for the model generated from the current /repo -/
 namespace Glm.Props.C09
 open Glm Glm.Spec.C09 Glm.Gen.C09
@@ -65,5 +68,8 @@ theorem all_ok : ∀ f ∈ families, f.ok lookup = true := by
     (Family.ok_congr f_scaleBias (fun ks => by rw [show f_scaleBias.unit = "scaleBias" from rfl, lookup_scaleBias])).trans scaleBias_ok,
     (Family.ok_congr f_scaleBiasM (fun ks => by rw [show f_scaleBiasM.unit = "scaleBiasM" from rfl, lookup_scaleBiasM])).trans scaleBiasM_ok,
     (Family.ok_congr f_axisAngleMatrix (fun ks => by rw [show f_axisAngleMatrix.unit = "axisAngleMatrix" from rfl, lookup_axisAngleMatrix])).trans axisAngleMatrix_ok,
-    (Family.ok_congr f_extractMatrixRotation (fun ks => by rw [show f_extractMatrixRotation.unit = "extractMatrixRotation" from rfl, lookup_extractMatrixRotation])).trans extractMatrixRotation_ok⟩
+    (Family.ok_congr f_extractMatrixRotation (fun ks => by rw [show f_extractMatrixRotation.unit = "extractMatrixRotation" from rfl, lookup_extractMatrixRotation])).trans extractMatrixRotation_ok,
+    (Family.ok_congr f_projrefl (fun ks => by rw [show f_projrefl.unit = "projrefl" from rfl, lookup_projrefl])).trans projrefl_ok,
+    (Family.ok_congr f_vslerp (fun ks => by rw [show f_vslerp.unit = "vslerp" from rfl, lookup_vslerp])).trans vslerp_ok,
+    (Family.ok_congr f_orientation (fun ks => by rw [show f_orientation.unit = "orientation" from rfl, lookup_orientation])).trans orientation_ok⟩
 end Glm.Props.C09
